@@ -99,6 +99,18 @@ func (u *Unit) execInstr(fr *Frame, st *State, in ssa.Instruction) {
 	case *ssa.Lookup:
 		m := u.get(fr, x.X)
 		k := u.get(fr, x.Index)
+		if mv, ok := m.(*MapV); ok {
+			et := x.X.Type().Underlying().(*types.Map).Elem()
+			v, has := u.mapLookup(st, mv, u.termOf(k))
+			zero, _ := valTerm(u.zeroVal(et))
+			val := &Scalar{T: u.define(Ite(has, v, zero), "mval"), Typ: et}
+			if x.CommaOk {
+				fr.vals[x] = &TupleV{Vs: []Val{val, &Scalar{T: has, Typ: types.Typ[types.Bool]}}}
+			} else {
+				fr.vals[x] = val
+			}
+			return
+		}
 		mt := u.termOf(m)
 		kt := u.termOf(k)
 		val := &Scalar{T: App(SInt, "mapget", mt, kt), Typ: x.X.Type().Underlying().(*types.Map).Elem()}
@@ -177,7 +189,11 @@ func (u *Unit) execInstr(fr *Frame, st *State, in ssa.Instruction) {
 		fr.vals[x] = &Scalar{T: u.fresh(SInt, "map"), Typ: x.Type(), Origin: "map"}
 
 	case *ssa.MapUpdate:
-		// label maps only: contents are not modelled
+		// maps held in fields are modelled; local label maps are not
+		if mv, ok := u.get(fr, x.Map).(*MapV); ok {
+			u.oblige("nopanic.nil_map_write", []string{"C13"}, "", st.pc, Not(u.mapNil(st, mv)), where, "assignment to entry in nil map")
+			u.mapStore(st, mv, u.termOf(u.get(fr, x.Key)), u.termOf(u.get(fr, x.Value)), TTrue)
+		}
 
 	case *ssa.MakeSlice:
 		fr.vals[x] = &SliceV{T: u.fresh(SInt, "slice"), Typ: x.Type()}
@@ -385,6 +401,12 @@ func (u *Unit) binop(fr *Frame, st *State, op token.Token, a, b Val, rt types.Ty
 			}
 			return &Scalar{T: r, Typ: rt}
 		}
+	}
+	if mv, ok := a.(*MapV); ok {
+		a = &Scalar{T: Ite(u.mapNil(st, mv), TZero, IntLit(1)), Typ: mv.Typ}
+	}
+	if mv, ok := b.(*MapV); ok {
+		b = &Scalar{T: Ite(u.mapNil(st, mv), TZero, IntLit(1)), Typ: mv.Typ}
 	}
 	x, y := u.termOf(a), u.termOf(b)
 	if f, ok := foldInt(op, x.S, y.S); ok && x.Sort == SInt && y.Sort == SInt {
